@@ -502,7 +502,12 @@ def run(ctx):
                 "length >= 2 in B, distinct mutated payloads in C.")
     code_names = translator_selfcheck(ctx, res)
     if ctx.replay_path:
-        rp = json.loads(Path(ctx.replay_path).read_text()).get("replay", {})
+        rfile = json.loads(Path(ctx.replay_path).read_text())
+        rp = rfile.get("replay", {})
+        if "seed" in rfile:
+            ctx.seed = rfile["seed"]          # the octet stream is regenerated from the seed the replay was found with
+        if "tier" in rfile:
+            ctx.tier = rfile["tier"]
         if rp.get("stream") in ("struct", None) and "tok" in rp:
             part_struct(ctx, res, code_names, replay_tok=rp["tok"])
             return res
